@@ -107,7 +107,9 @@ func Main(t *testing.T) {
 	if env.Scenario == "" && env.Replay == "" {
 		t.Skip("VERIF_SCENARIO not set")
 	}
-	runtime.GOMAXPROCS(2)
+	if os.Getenv("VERIF_PROCS") == "" {
+		runtime.GOMAXPROCS(1)
+	}
 	if env.Replay != "" {
 		startWatchdog(env)
 		replayFile(t, env)
